@@ -201,14 +201,34 @@ func blockEndTable() []*Program {
 			if lk.needsBrk && !bk.brk {
 				continue
 			}
-			for _, follow := range []string{"none", "ev", "yield"} {
+			for _, follow := range []string{"none", "ev", "yield", "inner-yield", "inner-return"} {
 				if follow != "none" && (lk.name == "return" || lk.name == "if-return-else-return") && bk.name == "func-body" {
 					continue // dead code
+				}
+				innerFollow := ""
+				if follow == "inner-yield" || follow == "inner-return" {
+					// one more statement INSIDE the block, after the statement under test
+					if bk.name == "func-body" {
+						continue // same as follow
+					}
+					innerFollow = follow
 				}
 				n++
 				id := 0
 				name := fmt.Sprintf("B%04d", n)
 				inner := lk.mk(&id)
+				if innerFollow != "" {
+					if terminating(inner) || endsInBranch(inner) {
+						n--
+						continue
+					}
+					if innerFollow == "inner-yield" {
+						inner = append(inner, yS(lit(77)))
+					} else {
+						inner = append(inner, evS(nid(&id)), &Stmt{K: "return"})
+					}
+					follow = "yield"
+				}
 				body := bk.wrap(&id, inner)
 				if !lk.yields {
 					// the function must be a generator: a leading yield
@@ -223,7 +243,7 @@ func blockEndTable() []*Program {
 				case "yield":
 					body = append(body, yS(lit(99)))
 				}
-				p := &Program{Name: name, Profile: "block-end-table", Tags: []string{"block:" + bk.name, "last:" + lk.name, "follow:" + follow}}
+				p := &Program{Name: name, Profile: "block-end-table", Tags: []string{"block:" + bk.name, "last:" + lk.name, "follow:" + follow, "inner-follow:" + innerFollow}}
 				p.Decls = []*Decl{{Kind: "gen", Name: name + "G", Params: []Param{{"a", "int"}}, Elem: "int", Body: body}}
 				p.Entries = []*Entry{{Name: name + "G", Kind: "drive", Call: "$P" + name + "G($0)", Elem: "int", Inputs: allInputs(1, 0, 3), Scripts: []string{"std"}}}
 				out = append(out, p)
@@ -243,6 +263,7 @@ type collDef struct {
 	n            int
 	unordered    bool
 	muts         []string // statements mutating c inside the loop body (i = iteration counter variable)
+	hugeBound    bool     // the loop must be left by break (only body shape "break")
 }
 
 var collDefs = []collDef{
@@ -266,6 +287,8 @@ var collDefs = []collDef{
 	{kind: "int", kt: "int64", vt: "", lit: `int64(3)`, n: 3},
 	{kind: "int", kt: "uint8", vt: "", lit: `uint8(2)`, n: 2},
 	{kind: "int", kt: "tr.MyInt", vt: "", lit: `tr.MyInt(2)`, n: 2},
+	{kind: "int", kt: "uint64", vt: "", lit: `uint64(1)<<63 + 5`, n: 3, hugeBound: true},
+	{kind: "int", kt: "uint", vt: "", lit: `^uint(0)`, n: 3, hugeBound: true},
 }
 
 var rangeBodies = []string{"yield", "trivial", "closure", "break", "continue", "nested", "mutate"}
@@ -290,6 +313,9 @@ func rangeTable() []*Program {
 					if knownExclusions()["array-range-live-not-copied"] && cd.kind == "array" && form >= 3 && bodyKind == "mutate" && (n+1)%2 == 0 {
 						n++ // keep the numbering (and so the Vl/plain alternation) stable
 						continue // known finding: the live array is ranged, not a copy
+					}
+					if cd.hugeBound && bodyKind != "break" {
+						continue
 					}
 					if cd.unordered && (bodyKind == "break" || bodyKind == "continue") {
 						continue // which entries are visited before the n-th iteration is unspecified
@@ -403,6 +429,9 @@ func scopingTable() []*Program {
 				Body: []*Stmt{evS(1, v("j")), {K: "incdec", Name: "j", Op: "++"}, decl("j", bin("*", v("j"), lit(100))), evS(2, v("j"))}}, yS(v("j"))},
 			"yielding-post-outer-var": {{K: "decl", Name: "j", E: lit(0)}, {K: "for", E: cmp("<", v("j"), lit(2)), Post: yS(bin("+", x(), v("j"))),
 				Body: []*Stmt{evS(1, v("j")), {K: "incdec", Name: "j", Op: "++"}, decl("x", lit(-7)), evS(2, x())}}, yS(x())},
+			"yieldfrom-post-body-decl": {{K: "closure", Name: "g", Fn: &FuncLit{Gen: true, Elem: "int", Params: []Param{{"p", "int"}}, Body: []*Stmt{yS(v("p")), yS(bin("+", v("p"), lit(1)))}}},
+				{K: "decl", Name: "j", E: lit(0)}, {K: "for", E: cmp("<", v("j"), lit(2)), Post: &Stmt{K: "yieldfrom", Iter: &IterExpr{K: "var", Name: "g", Args: []*Expr{x()}, Elem: "int"}},
+					Body: []*Stmt{evS(1, v("j")), {K: "incdec", Name: "j", Op: "++"}, decl("x", bin("*", v("j"), lit(100))), evS(2, x())}}, yS(x())},
 			"case-clause": {{K: "switch", E: bin("%", v("a"), lit(2)), Cases: []*Case{{Exprs: []*Expr{lit(0), lit(1)}, Body: []*Stmt{decl("x", bin("*", x(), lit(10))), yS(x())}}}}, yS(x())},
 			"loop-body-each-iteration": {{K: "for", Init: &Stmt{K: "decl", Name: "i", E: lit(0)}, E: cmp("<", v("i"), lit(2)), Post: &Stmt{K: "incdec", Name: "i", Op: "++"},
 				Body: []*Stmt{evS(1), decl("x", bin("+", x(), v("i"))), yS(x()), {K: "incdec", Name: "x", Op: "++"}}}, yS(x())},
@@ -419,6 +448,15 @@ func scopingTable() []*Program {
 			sites["range-key"] = []*Stmt{{K: "range", Name: "x", Op: ":=", Coll: &Coll{Kind: "int", Lit: "2", KT: "int"}, Body: []*Stmt{evS(1), yS(x())}}, yS(x())}
 			sites["range-value"] = []*Stmt{{K: "range", Name: "_", Name2: "x", Op: ":=", Coll: &Coll{Kind: "slice", Lit: "[]int{7, 8}", KT: "int", VT: "int"}, Body: []*Stmt{evS(1), yS(x()), {K: "incdec", Name: "x", Op: "++"}}}, yS(x())}
 			sites["typeswitch-binding"] = []*Stmt{{K: "tswitch", Name: "x", Raw: "tr.Any(x * 6)", Cases: []*Case{{Types: []string{"int"}, Body: []*Stmt{yS(vt("x", "int"))}}, {Default: true, Body: []*Stmt{yS(lit(-1))}}}}, yS(x())}
+			sites["range-assign-both-vars"] = []*Stmt{{K: "var", Name: "k", T: "int"}, {K: "var", Name: "e", T: "int"},
+				{K: "closure", Name: "f", Fn: &FuncLit{Params: []Param{{"p", "int"}}, Result: "int", Ret: bin("+", bin("*", v("k"), lit(10)), v("e"))}},
+				{K: "range", Name: "k", Name2: "e", Op: "=", Coll: &Coll{Kind: "slice", Lit: "[]int{7, 8, 9}", KT: "int", VT: "int"}, Body: []*Stmt{evS(1, v("k"), v("e")), yS(&Expr{K: "call", Name: "f", Args: []*Expr{lit(0)}}),
+					{K: "if", E: cmp("==", v("e"), bin("+", lit(8), x())), Body: []*Stmt{{K: "break"}}}}},
+				yS(bin("+", bin("*", v("k"), lit(100)), v("e"))), yS(&Expr{K: "call", Name: "f", Args: []*Expr{lit(0)}})}
+			sites["range-assign-key-only"] = []*Stmt{{K: "var", Name: "k", T: "int"},
+				{K: "range", Name: "k", Op: "=", Coll: &Coll{Kind: "int", Lit: "3", KT: "int"}, Body: []*Stmt{evS(1, v("k")), yS(v("k"))}}, yS(bin("+", v("k"), lit(100)))}
+			sites["range-assign-value-only"] = []*Stmt{{K: "var", Name: "e", T: "rune"},
+				{K: "range", Name: "_", Name2: "e", Op: "=", Coll: &Coll{Kind: "string", Lit: `"héy"`, KT: "int", VT: "rune"}, Body: []*Stmt{evS(1, vt("e", "rune")), yS(vt("e", "rune"))}}, yS(bin("+", vt("e", "rune"), lit(1000)))}
 			sites["consumer-loop-var"] = []*Stmt{{K: "closure", Name: "g", Fn: &FuncLit{Gen: true, Elem: "int", Params: []Param{{"p", "int"}}, Body: []*Stmt{yS(v("p")), yS(bin("+", v("p"), lit(1)))}}},
 				{K: "crange", Name: "x", Op: ":=", Iter: &IterExpr{K: "var", Name: "g", Args: []*Expr{x()}, Elem: "int"}, Body: []*Stmt{evS(1), {K: "decl", Name: "x", E: bin("*", x(), lit(2))}, yS(x())}}, yS(x())}
 		}
